@@ -123,6 +123,10 @@ class JSONPointer:
         return index
 
     def _getitem(self, obj: Any, key: Any) -> Any:  # noqa: PLR0912
+        if isinstance(obj, str):
+            # A JSON string has no children, even though Python can index it.
+            raise JSONPointerTypeError(f"{key}: can't resolve a pointer into a string")
+
         try:
             return getitem(obj, key)
         except KeyError as err:
